@@ -1161,6 +1161,14 @@ func ruleSEQSPACE(c *Checker, rg *Ranger) {
 				}
 				r := rg.At(x, st.Block())
 				okk = okk && !r.empty && r.hi <= 254
+			} else if ks, isK := intConst(st.Val); isK {
+				// both constants (`n: DefaultN, s: DefaultN + 1` folded by the compiler): s is the constant
+				// stored to n in the same function, plus one
+				for _, s2 := range w.Stores(fN) {
+					if kn, ok := intConst(s2.Val); ok && s2.Parent() == st.Parent() && ks == kn+1 && kn <= 254 {
+						okk = true
+					}
+				}
 			}
 			c.decide(okk, "SEQSPACE", key, instrPos(st), "s = n + 1 with n the window size in force and n <= 254", "the sequence space is not defined as window size + 1 (or can wrap to 0): s > n no longer holds")
 		}
